@@ -43,6 +43,8 @@ def main(argv):
             rc_clean, _ = sh([PY, '-W', 'ignore', demo], cwd=wt, env=env)
             rc_apply, o = sh(['git', '-C', wt, 'apply', patch])
             if rc_apply != 0:
+                rc_apply, o = sh(['git', '-C', wt, 'apply', '--3way', patch])
+            if rc_apply != 0:
                 out.append({'id': '%s_%s' % (prop, k), 'status': 'patch does not apply', 'detail': o[-300:]})
                 continue
             rc_tests, o = sh([PY, '-W', 'ignore', '-m', 'pytest', '-q', '-p', 'no:cacheprovider', '-x'], cwd=wt, env=env)
